@@ -147,7 +147,7 @@ func init() {
 		Assumptions: []string{"root, chroot(2) available", "no concurrent local attacker (TOCTOU races are out of scope)", "a receiver process crash counts as a failed receive call (counted separately)"},
 		Cases: func(tier string) int {
 			if tier == "thorough" {
-				return 30000
+				return 60000
 			}
 			return 1500
 		},
